@@ -8,7 +8,7 @@ mirroring `Item::Import` in output/transform.rs).
 
 `LoadQuirks.spec` is what the property demands; `LoadQuirks.asis` is the code today, which
 deviated at two call sites (flags `noLoadPathFallback` — repaired by commit 56921f7 — and
-`candidateMajor`, still open): for those there is a
+`candidateMajor` — repaired by 31d0dab): for those there is a
 `_partial` theorem under the hypothesis that excludes the deviation, and a refutation.
 -/
 import RsassModel.Load.LemmasFind
@@ -201,8 +201,8 @@ theorem missing_is_error (q : LoadQuirks) (F : Finder) (enter : Str → St → R
 
 /-! ### the code as it is, and as it was -/
 
-/-- `_partial` (`candidateMajor`, the one lookup deviation left after commits 56921f7 and
-51f269b): with a single search location the candidate-major loop of the code finds exactly
+/-- `_partial` (`candidateMajor`, the lookup deviation that was left after commits 56921f7 and
+51f269b; repaired by 31d0dab): with a single search location the candidate-major loop of the code finds exactly
 what the specification finds. -/
 theorem findScan_candidateMajor_partial (E : Env) (h : NoFaults E) (self : Str) (k : Kind)
     (url : Str) (calls : List Call) (r : Str) (hroots : E.roots = [r]) :
@@ -224,9 +224,10 @@ example :
       = some ([95, 113, 46, 115, 99, 115, 115], [95, 113, 46, 115, 99, 115, 115]) := by
   decide +kernel
 
-/-- refutation (`candidateMajor`, open): `in.scss` does `@use "q"`; `_q.scss` exists next to it
-and `q.scss` in the load path `lp1/`: the specification resolves to `_q.scss` (importing file's
-directory first), the code — today's as well as the pinned one — to `lp1/q.scss`. -/
+/-- refutation (`candidateMajor`, repaired by 31d0dab `Loader::find_first`): `in.scss` does
+`@use "q"`; `_q.scss` exists next to it and `q.scss` in the load path `lp1/`: the specification —
+and the code today — resolves to `_q.scss` (importing file's directory first), the code before
+the repair to `lp1/q.scss`. -/
 theorem candidateMajor_refuted :
     let E : Env := ⟨[[105, 110, 46, 115, 99, 115, 115], [95, 113, 46, 115, 99, 115, 115],
                      [108, 112, 49, 47, 113, 46, 115, 99, 115, 115]], [[], [108, 112, 49, 47]], fun _ => none⟩
@@ -234,6 +235,8 @@ theorem candidateMajor_refuted :
     (findScan LoadQuirks.spec E self .use [113] []).hit
         = some ([95, 113, 46, 115, 99, 115, 115], [95, 113, 46, 115, 99, 115, 115]) ∧
     (findScan LoadQuirks.now E self .use [113] []).hit
+        = some ([95, 113, 46, 115, 99, 115, 115], [95, 113, 46, 115, 99, 115, 115]) ∧
+    (findScan LoadQuirks.mid E self .use [113] []).hit
         = some ([113, 46, 115, 99, 115, 115], [108, 112, 49, 47, 113, 46, 115, 99, 115, 115]) ∧
     (findScan LoadQuirks.asis E self .use [113] []).hit
         = some ([113, 46, 115, 99, 115, 115], [108, 112, 49, 47, 113, 46, 115, 99, 115, 115]) := by
